@@ -663,24 +663,31 @@ def chk8_sum(ctx):
              re.search(r'<i64 as Combinable<i64>>::combine$', b.name)]
     ctx.require(len(cands) == 1, 'CHK-8: <i64 as Combinable<i64>>::combine not found')
     b = cands[0]
-    adds = calls_matching(b, lambda n: n in ('core::num::<impl i64>::checked_add', 'i64::checked_add'))
-    oadds = calls_matching(b, lambda n: n in ('core::num::<impl i64>::overflowing_add', 'i64::overflowing_add'))
-    raw = []
-    for bid, blk in b.blocks.items():
-        if blk.cleanup:
-            continue
-        for s in blk.stmts:
-            if s.kind == 'assign' and re.match(r'^(Add|AddWithOverflow)\(', s.rhs):
-                raw.append(s)
-    du = DefUse(b)
+    # the sum may be computed in a closure handed to a NULL-coalescing helper: the function and the
+    # closures it creates are read together
+    bodies = [b] + [cb for cb in P.closures_of(b)]
+    adds, oadds, raw = [], [], []
     ok_or = False
-    for (blk, t) in adds:
-        fw = du.forward(base_local(t.dest))
-        for (b2, t2) in b.calls():
-            if norm_callee(t2.func).endswith('Option::ok_or') and base_local(t2.args[0]) in fw \
-                    and 'QueryError::Overflow' in ' '.join(s.rhs or '' for s in b2.stmts if s.kind == 'assign') + ' '.join(t2.args):
-                ok_or = True
-    flag_returned = any(0 in du.forward(base_local(t.dest)) for (blk, t) in oadds)
+    flag_returned = False
+    for bb in bodies:
+        a_ = calls_matching(bb, lambda n: n in ('core::num::<impl i64>::checked_add', 'i64::checked_add'))
+        o_ = calls_matching(bb, lambda n: n in ('core::num::<impl i64>::overflowing_add', 'i64::overflowing_add'))
+        adds += a_
+        oadds += o_
+        for bid, blk in bb.blocks.items():
+            if blk.cleanup:
+                continue
+            for s in blk.stmts:
+                if s.kind == 'assign' and re.match(r'^(Add|AddWithOverflow)\(', s.rhs):
+                    raw.append(s)
+        du = DefUse(bb)
+        for (blk, t) in a_:
+            fw = du.forward(base_local(t.dest))
+            for (b2, t2) in bb.calls():
+                if norm_callee(t2.func).endswith('Option::ok_or') and base_local(t2.args[0]) in fw \
+                        and 'QueryError::Overflow' in ' '.join(s.rhs or '' for s in b2.stmts if s.kind == 'assign') + ' '.join(t2.args):
+                    ok_or = True
+        flag_returned = flag_returned or any(0 in du.forward(base_local(t.dest)) for (blk, t) in o_)
     mode = 'checked_add -> ok_or(Overflow)' if (adds and ok_or) else \
         ('overflowing_add flag returned' if flag_returned else 'none')
     # at most one raw add (Count) may remain next to the checked sum
